@@ -9,7 +9,7 @@
    the optional offset (a chunk 0 WITHOUT header is the V1 "simple" form: N = 2, 64x32, no
    offset).  Chunks 1..N of the same format and targets that follow belong to the most recent
    such start. *)
-From RP Require Import Lib.Base Lib.Strings Lib.B64 Model.Gfx.  (* Model.Gfx: record [gfx] and, at the end, the wire reader *)
+From RP Require Import Lib.Base Lib.Strings Lib.B64 Lib.TrimSpace Model.Gfx.  (* Model.Gfx: record [gfx] and, at the end, the wire reader *)
 
 Record chunk := mkC {
   c_type : Z;                                      (* 0 MONO, 1 RGB16bit, 2 Gray4bit *)
@@ -158,3 +158,59 @@ Definition chunk_of_sm (sm : gfx_sm) : chunk :=
 
 Definition classify (l : list Z) : line :=
   match gfx_match l with Some sm => G (chunk_of_sm sm) | None => O end.
+
+(* ---- vocabulary of the theorems in Props/C05.v ---- *)
+(* what can be sent: the three formats, uint32 fields, bytes *)
+Definition gfx_ok (g : gfx) : Prop :=
+  0 <= g_type g <= 2 /\ 0 <= g_w g < 4294967296 /\ 0 <= g_h g < 4294967296
+  /\ 0 <= g_x g < 4294967296 /\ 0 <= g_y g < 4294967296 /\ bytes_ok (g_data g) = true
+  /\ zlen (g_data g) < 2 ^ 53.   (* a Go slice; math.Ceil(float64(len)/170) is exact below 2^53 *)
+Definition id_ok (i : Z) : Prop := 0 <= i < 4294967296.
+
+Fixpoint clean_deliveries (g : gfx) (T pos : Z) (ids : list Z) : list (Z * (list Z * gfx)) :=
+  match ids with
+  | [] => []
+  | i :: r => (pos + T - 1, ([i], gfx_norm g)) :: clean_deliveries g T (pos + T) r
+  end.
+
+Definition to_ds (l : list (Z * (list Z * gfx))) : list delivery :=
+  map (fun x => mkD (fst x) (fst (snd x)) (snd (snd x))) l.
+
+Definition ascii (s : list Z) : Prop := Forall (fun c => 0 <= c < 128) s.
+
+Definition reader_ascii (st : reader) : Prop :=
+  ascii (r_type st) /\ ascii (r_list st) /\ Forall ascii (r_buf st).
+
+Definition other_line (l : list Z) : Prop := gfx_match (trim_space l) = None.
+
+Definition nones {A} (os : list A) : list (list (list Z * gfx)) := map (fun _ => []) os.
+
+(* a history with unrelated lines: every chunk line comes with the other lines fed before it *)
+Definition unspace (sp : list (list (list Z) * list Z)) : list (list Z) :=
+  flat_map (fun p => fst p ++ [snd p]) sp.
+
+(* outputs of a spaced run: nothing, except [final] at its last chunk line *)
+Fixpoint sp_outs (sp : list (list (list Z) * list Z)) (final : list (list Z * gfx)) : list (list (list Z * gfx)) :=
+  match sp with
+  | [] => []
+  | [p] => nones (fst p) ++ [final]
+  | p :: r => nones (fst p) ++ [[]] ++ sp_outs r final
+  end.
+
+Definition sp_others_ok (sp : list (list (list Z) * list Z)) : Prop := Forall (fun p => Forall other_line (fst p)) sp.
+
+(* expected outputs: per id, nothing until the last chunk line of its run, the image there *)
+Fixpoint clean_stream_out (g : gfx) (T : nat) (ids : list Z) (sp : list (list (list Z) * list Z)) : list (list (list Z * gfx)) :=
+  match ids with
+  | [] => []
+  | i :: r => sp_outs (firstn T sp) [([i], gfx_norm g)] ++ clean_stream_out g T r (skipn T sp)
+  end.
+
+Definition sline (l : list Z) : line := classify (trim_space l).
+
+(* deliveries of a stream run, with positions *)
+Fixpoint stream_ds (pos : Z) (outs : list (list (list Z * gfx))) : list delivery :=
+  match outs with
+  | [] => []
+  | o :: r => map (fun x => mkD pos (fst x) (snd x)) o ++ stream_ds (pos + 1) r
+  end.
